@@ -75,7 +75,7 @@ def slice_mutations(tr):
 
 
 def gkey(e):
-    return tuple((s, g) for s, g, _ in e.guards)
+    return tuple((g[0], g[1]) for g in e.guards)
 
 
 def rule_pair(ctx):
